@@ -34,6 +34,8 @@ CONSTANTS N,          \* number of WAL partitions
           MaxFlush,   \* flushes started
           MaxCrash,   \* crashes
           MaxInits,   \* data files written by one flush
+          DropKeys,   \* cells of the measurement that DROP MEASUREMENT removes (subset of Keys)
+          MaxDrop,    \* drops
           Dev
 
 VARIABLES wal,       \* [1..N -> Seq(file)], file = [id, recs: Seq(write id), open: BOOLEAN]
@@ -52,12 +54,14 @@ VARIABLES wal,       \* [1..N -> Seq(file)], file = [id, recs: Seq(write id), op
           wst,       \* write id -> "mem" | "logged" | "acked"
           acked,     \* Seq(write id) in acknowledgement order
           nflush, ncrash,
+          dpc,       \* DROP MEASUREMENT program counter: "none" | "marked" | "removed"
+          ndrop,
           hist       \* client-visible history (export)
 
 vars == <<wal, nfile, writeReq, mem, snap, pend, files, inits, fpc, mode, rpc, keyOf, nw, wst, acked,
-          nflush, ncrash, hist>>
+          nflush, ncrash, dpc, ndrop, hist>>
 view == <<wal, nfile, writeReq, mem, snap, pend, files, inits, fpc, mode, rpc, keyOf, nw, wst, acked,
-          nflush, ncrash>>
+          nflush, ncrash, dpc, ndrop>>
 
 Parts == 1..N
 W     == 1..MaxW
@@ -76,7 +80,8 @@ ReadFiles(fs, k) == IF fs = <<>> THEN 0
 Read(k) == LET a == LastOn(mem, k) b == LastOn(snap, k)
            IN IF a # 0 THEN a ELSE IF b # 0 THEN b ELSE ReadFiles(files, k)
 
-LastAcked(k) == LastOn(acked, k)
+\* the latest acknowledged write that has not been dropped since
+LastAcked(k) == LastOn(SelectSeq(acked, LAMBDA w : wst[w] = "acked"), k)
 
 AllFiles == UNION {{wal[p][i].id : i \in 1..Len(wal[p])} : p \in Parts}
 
@@ -87,18 +92,19 @@ Init ==
   /\ fpc = "idle" /\ mode = "run" /\ rpc = "none"
   /\ keyOf = [w \in W |-> CHOOSE k \in Keys : TRUE] /\ nw = 0
   /\ wst = [w \in W |-> "none"] /\ acked = <<>>
-  /\ nflush = 0 /\ ncrash = 0 /\ hist = <<>>
+  /\ nflush = 0 /\ ncrash = 0 /\ dpc = "none" /\ ndrop = 0 /\ hist = <<>>
 
 Unlogged == {w \in W : wst[w] = "mem"}
 Unacked  == {w \in W : wst[w] \in {"mem", "logged"}}
 
 WriteMem(k) ==
   /\ mode = "run" /\ nw < MaxW /\ Unacked = {}       \* one sequential client: acknowledgement order is well defined
+  /\ dpc = "none"
   /\ nw' = nw + 1
   /\ keyOf' = [keyOf EXCEPT ![nw + 1] = k]
   /\ mem' = Append(mem, nw + 1)
   /\ wst' = [wst EXCEPT ![nw + 1] = "mem"]
-  /\ UNCHANGED <<wal, nfile, writeReq, snap, pend, files, inits, fpc, mode, rpc, acked, nflush, ncrash, hist>>
+  /\ UNCHANGED <<wal, nfile, writeReq, snap, pend, files, inits, fpc, mode, rpc, acked, nflush, ncrash, dpc, ndrop, hist>>
 
 \* append the record to the partition's open file, creating one if needed
 AppendRec(p, w) ==
@@ -115,29 +121,34 @@ WriteWal(w) ==
        ELSE /\ AppendRec((writeReq % N) + 1, w)
             /\ writeReq' = writeReq + 1
   /\ wst' = [wst EXCEPT ![w] = "logged"]
-  /\ UNCHANGED <<mem, snap, pend, files, inits, fpc, mode, rpc, keyOf, nw, acked, nflush, ncrash, hist>>
+  /\ UNCHANGED <<mem, snap, pend, files, inits, fpc, mode, rpc, keyOf, nw, acked, nflush, ncrash, dpc, ndrop, hist>>
 
 Ack(w) ==
   /\ mode = "run" /\ wst[w] = "logged"
   /\ wst' = [wst EXCEPT ![w] = "acked"]
   /\ acked' = Append(acked, w)
   /\ hist' = Append(hist, [a |-> "Write", w |-> w, k |-> keyOf[w]])
-  /\ UNCHANGED <<wal, nfile, writeReq, mem, snap, pend, files, inits, fpc, mode, rpc, keyOf, nw, nflush, ncrash>>
+  /\ UNCHANGED <<wal, nfile, writeReq, mem, snap, pend, files, inits, fpc, mode, rpc, keyOf, nw, nflush, ncrash, dpc, ndrop>>
 
 CloseAll(ws) == [p \in Parts |-> [i \in 1..Len(ws[p]) |-> [ws[p][i] EXCEPT !.open = FALSE]]]
 
 FlushSwitch ==
-  /\ mode = "run" /\ fpc = "idle" /\ mem # <<>> /\ Unlogged = {} /\ nflush < MaxFlush
+  /\ mode = "run" /\ fpc = "idle" /\ mem # <<>> /\ Unlogged = {}
+  /\ (nflush < MaxFlush \/ dpc = "marked")             \* DROP MEASUREMENT forces a flush of its own
+  /\ dpc \in {"none", "marked"}
   /\ snap' = mem /\ mem' = <<>>
   /\ wal' = CloseAll(wal)
   /\ pend' = AllFiles
   /\ writeReq' = IF "reset_writereq_at_switch" \in Dev THEN 0 ELSE writeReq
   /\ fpc' = "switched" /\ nflush' = nflush + 1
-  /\ UNCHANGED <<nfile, files, inits, mode, rpc, keyOf, nw, wst, acked, ncrash, hist>>
+  /\ UNCHANGED <<nfile, files, inits, mode, rpc, keyOf, nw, wst, acked, ncrash, dpc, ndrop, hist>>
 
 FlushIndex ==
   /\ mode = "run" /\ fpc = "switched" /\ fpc' = "indexed"
-  /\ UNCHANGED <<wal, nfile, writeReq, mem, snap, pend, files, inits, mode, rpc, keyOf, nw, wst, acked, nflush, ncrash, hist>>
+  /\ UNCHANGED <<wal, nfile, writeReq, mem, snap, pend, files, inits, mode, rpc, keyOf, nw, wst, acked, nflush, ncrash, dpc, ndrop, hist>>
+
+\* commitSnapshot skips the rows of a measurement that is being dropped (checkMstDeleting)
+Kept(seq) == IF dpc = "none" THEN seq ELSE SelectSeq(seq, LAMBDA w : keyOf[w] \notin DropKeys)
 
 \* commitSnapshot writes one *.tssp.init per data file (ordered / out-of-order, per measurement)
 \* and renames each into place; the snapshot's rows become readable from files with the first
@@ -145,20 +156,20 @@ FlushIndex ==
 FlushInit ==
   /\ mode = "run" /\ fpc \in {"indexed", "committing"} /\ inits < MaxInits
   /\ fpc' = "committing" /\ inits' = inits + 1
-  /\ UNCHANGED <<wal, nfile, writeReq, mem, snap, pend, files, mode, rpc, keyOf, nw, wst, acked, nflush, ncrash, hist>>
+  /\ UNCHANGED <<wal, nfile, writeReq, mem, snap, pend, files, mode, rpc, keyOf, nw, wst, acked, nflush, ncrash, dpc, ndrop, hist>>
 
 FlushRename ==
   /\ mode = "run" /\ fpc = "committing" /\ inits > 0
   /\ inits' = inits - 1
-  /\ files' = IF files # <<>> /\ files[Len(files)] = snap THEN files ELSE Append(files, snap)
-  /\ UNCHANGED <<wal, nfile, writeReq, mem, snap, pend, fpc, mode, rpc, keyOf, nw, wst, acked, nflush, ncrash, hist>>
+  /\ files' = IF files # <<>> /\ files[Len(files)] = Kept(snap) THEN files ELSE Append(files, Kept(snap))
+  /\ UNCHANGED <<wal, nfile, writeReq, mem, snap, pend, fpc, mode, rpc, keyOf, nw, wst, acked, nflush, ncrash, dpc, ndrop, hist>>
 
 \* all data files of the snapshot are in place
 FlushCommitted ==
   /\ mode = "run" /\ fpc = "committing" /\ inits = 0
-  /\ files # <<>> /\ files[Len(files)] = snap
+  /\ files # <<>> /\ files[Len(files)] = Kept(snap)
   /\ fpc' = "renamed"
-  /\ UNCHANGED <<wal, nfile, writeReq, mem, snap, pend, files, inits, mode, rpc, keyOf, nw, wst, acked, nflush, ncrash, hist>>
+  /\ UNCHANGED <<wal, nfile, writeReq, mem, snap, pend, files, inits, mode, rpc, keyOf, nw, wst, acked, nflush, ncrash, dpc, ndrop, hist>>
 
 Without(ws, ids) == [p \in Parts |-> SelectSeq(ws[p], LAMBDA f : f.id \notin ids)]
 
@@ -170,13 +181,33 @@ FlushRemoveWal ==
   /\ IF "wal_remove_one_by_one" \in Dev
        THEN \E f \in pend : /\ wal' = Without(wal, {f}) /\ pend' = pend \ {f}
        ELSE /\ wal' = Without(wal, pend) /\ pend' = {}
-  /\ UNCHANGED <<nfile, writeReq, mem, snap, files, inits, fpc, mode, rpc, keyOf, nw, wst, acked, nflush, ncrash, hist>>
+  /\ UNCHANGED <<nfile, writeReq, mem, snap, files, inits, fpc, mode, rpc, keyOf, nw, wst, acked, nflush, ncrash, dpc, ndrop, hist>>
 
 FlushEnd ==
   /\ mode = "run" /\ fpc = "renamed" /\ pend = {}
   /\ snap' = <<>> /\ fpc' = "idle"
   /\ hist' = Append(hist, [a |-> "Flush", w |-> 0, k |-> "-"])
-  /\ UNCHANGED <<wal, nfile, writeReq, mem, pend, files, inits, mode, rpc, keyOf, nw, wst, acked, nflush, ncrash>>
+  /\ UNCHANGED <<wal, nfile, writeReq, mem, pend, files, inits, mode, rpc, keyOf, nw, wst, acked, nflush, ncrash, dpc, ndrop>>
+
+\* DROP MEASUREMENT (shard.DropMeasurement): mark the measurement as deleting, force a flush (its rows are
+\* skipped, the log files go away with that flush), remove its data files, acknowledge.
+DropBegin ==
+  /\ mode = "run" /\ fpc = "idle" /\ dpc = "none" /\ Unacked = {} /\ ndrop < MaxDrop /\ DropKeys # {}
+  /\ dpc' = "marked" /\ ndrop' = ndrop + 1
+  /\ UNCHANGED <<wal, nfile, writeReq, mem, snap, pend, files, inits, fpc, mode, rpc, keyOf, nw, wst, acked, nflush, ncrash, hist>>
+
+DropFiles ==
+  /\ mode = "run" /\ dpc = "marked" /\ fpc = "idle" /\ mem = <<>>
+  /\ files' = [i \in 1..Len(files) |-> SelectSeq(files[i], LAMBDA w : keyOf[w] \notin DropKeys)]
+  /\ dpc' = "removed"
+  /\ UNCHANGED <<wal, nfile, writeReq, mem, snap, pend, inits, fpc, mode, rpc, keyOf, nw, wst, acked, nflush, ncrash, ndrop, hist>>
+
+DropEnd ==
+  /\ mode = "run" /\ dpc = "removed"
+  /\ wst' = [w \in W |-> IF keyOf[w] \in DropKeys /\ wst[w] \in {"acked", "maybe"} THEN "dropped" ELSE wst[w]]
+  /\ dpc' = "none"
+  /\ hist' = Append(hist, [a |-> "Drop", w |-> 0, k |-> "-"])
+  /\ UNCHANGED <<wal, nfile, writeReq, mem, snap, pend, files, inits, fpc, mode, rpc, keyOf, nw, acked, nflush, ncrash, ndrop>>
 
 \* kill -9: memory and descriptors vanish; the directory tree stays as it is
 Crash ==
@@ -187,8 +218,11 @@ Crash ==
   /\ inits' = 0                                         \* *.init files are ignored (and cleaned) by Open
   \* a write caught before its log append is lost; one caught between log append and
   \* acknowledgement may or may not come back ("maybe": the client never saw the 204)
-  /\ wst' = [w \in W |-> CASE wst[w] = "mem" -> "lost" [] wst[w] = "logged" -> "maybe" [] OTHER -> wst[w]]
-  /\ UNCHANGED <<nfile, writeReq, files, keyOf, nw, acked, nflush, hist>>
+  /\ wst' = [w \in W |-> CASE wst[w] = "mem" -> "lost" [] wst[w] = "logged" -> "maybe"
+                          [] wst[w] = "acked" /\ dpc # "none" /\ keyOf[w] \in DropKeys -> "maybe"   \* drop in flight: either outcome
+                          [] OTHER -> wst[w]]
+  /\ dpc' = "none"
+  /\ UNCHANGED <<nfile, writeReq, files, keyOf, nw, acked, nflush, ndrop, hist>>
 
 Recs(p) == LET RECURSIVE Cat(_)
                Cat(fs) == IF fs = <<>> THEN <<>> ELSE Head(fs).recs \o Cat(Tail(fs))
@@ -210,43 +244,44 @@ GlobalOrder == SetToSortSeq(AllRecs, <)
 RecOpen ==
   /\ mode = "down" /\ mode' = "rec" /\ rpc' = "opened"
   /\ writeReq' = 0
-  /\ UNCHANGED <<wal, nfile, mem, snap, pend, files, inits, fpc, keyOf, nw, wst, acked, nflush, ncrash, hist>>
+  /\ UNCHANGED <<wal, nfile, mem, snap, pend, files, inits, fpc, keyOf, nw, wst, acked, nflush, ncrash, dpc, ndrop, hist>>
 
 RecReplay ==
   /\ mode = "rec" /\ rpc = "opened"
   /\ mem' = IF "rr_from_0" \in Dev THEN RoundRobin([p \in Parts |-> Recs(p)]) ELSE GlobalOrder
   /\ pend' = AllFiles
   /\ rpc' = "replayed"
-  /\ UNCHANGED <<wal, nfile, writeReq, snap, files, inits, fpc, mode, keyOf, nw, wst, acked, nflush, ncrash, hist>>
+  /\ UNCHANGED <<wal, nfile, writeReq, snap, files, inits, fpc, mode, keyOf, nw, wst, acked, nflush, ncrash, dpc, ndrop, hist>>
 
 RecInit ==
   /\ mode = "rec" /\ rpc = "replayed" /\ rpc' = "inited"
   /\ inits' = IF mem = <<>> THEN inits ELSE inits + 1
-  /\ UNCHANGED <<wal, nfile, writeReq, mem, snap, pend, files, fpc, mode, keyOf, nw, wst, acked, nflush, ncrash, hist>>
+  /\ UNCHANGED <<wal, nfile, writeReq, mem, snap, pend, files, fpc, mode, keyOf, nw, wst, acked, nflush, ncrash, dpc, ndrop, hist>>
 
 RecRename ==
   /\ mode = "rec" /\ rpc = "inited" /\ rpc' = "renamed"
   /\ files' = IF mem = <<>> THEN files ELSE Append(files, mem)
   /\ inits' = 0 /\ mem' = <<>>
-  /\ UNCHANGED <<wal, nfile, writeReq, snap, pend, fpc, mode, keyOf, nw, wst, acked, nflush, ncrash, hist>>
+  /\ UNCHANGED <<wal, nfile, writeReq, snap, pend, fpc, mode, keyOf, nw, wst, acked, nflush, ncrash, dpc, ndrop, hist>>
 
 RecRemoveWal ==
   /\ mode = "rec" /\ rpc = "renamed" /\ pend # {}
   /\ IF "wal_remove_one_by_one" \in Dev
        THEN \E f \in pend : /\ wal' = Without(wal, {f}) /\ pend' = pend \ {f}
        ELSE /\ wal' = Without(wal, pend) /\ pend' = {}
-  /\ UNCHANGED <<nfile, writeReq, mem, snap, files, inits, fpc, mode, rpc, keyOf, nw, wst, acked, nflush, ncrash, hist>>
+  /\ UNCHANGED <<nfile, writeReq, mem, snap, files, inits, fpc, mode, rpc, keyOf, nw, wst, acked, nflush, ncrash, dpc, ndrop, hist>>
 
 RecEnd ==
   /\ mode = "rec" /\ rpc = "renamed" /\ pend = {}
   /\ mode' = "run" /\ rpc' = "none"
   /\ hist' = Append(hist, [a |-> "Restart", w |-> 0, k |-> "-"])
-  /\ UNCHANGED <<wal, nfile, writeReq, mem, snap, pend, files, inits, fpc, keyOf, nw, wst, acked, nflush, ncrash>>
+  /\ UNCHANGED <<wal, nfile, writeReq, mem, snap, pend, files, inits, fpc, keyOf, nw, wst, acked, nflush, ncrash, dpc, ndrop>>
 
 Next ==
   \/ \E k \in Keys : WriteMem(k)
   \/ \E w \in W : WriteWal(w) \/ Ack(w)
   \/ FlushSwitch \/ FlushIndex \/ FlushInit \/ FlushRename \/ FlushCommitted \/ FlushRemoveWal \/ FlushEnd
+  \/ DropBegin \/ DropFiles \/ DropEnd
   \/ Crash \/ RecOpen \/ RecReplay \/ RecInit \/ RecRename \/ RecRemoveWal \/ RecEnd
 
 Spec == Init /\ [][Next]_vars
@@ -257,7 +292,7 @@ Spec == Init /\ [][Next]_vars
 \* older value, never a value nobody wrote.
 Durable ==
   mode = "run" =>
-    \A k \in Keys :
+    \A k \in Keys : (dpc # "none" /\ k \in DropKeys) \/
       LET r == Read(k) IN
         /\ r >= LastAcked(k)
         /\ r # 0 => (keyOf[r] = k /\ wst[r] \in {"mem", "logged", "acked", "maybe"})
@@ -265,13 +300,13 @@ Durable ==
 
 \* an acknowledged write is always on disk: in a log record or in a committed data file
 InFiles(w) == \E i \in 1..Len(files) : \E j \in 1..Len(files[i]) : files[i][j] = w
-WalBeforeAck == \A w \in W : wst[w] = "acked" => (w \in AllRecs \/ InFiles(w))
+WalBeforeAck == \A w \in W : (wst[w] = "acked" /\ ~(dpc # "none" /\ keyOf[w] \in DropKeys)) => (w \in AllRecs \/ InFiles(w))
 
 \* action property: log files of a flush disappear only after its data file was renamed into place
 RemoveAfterRename ==
   [][ (mode = "run" /\ wal' # wal /\ Cardinality(AllFiles') < Cardinality(AllFiles)) => fpc = "renamed" ]_vars
 
-TypeOK == /\ mode \in {"run", "down", "rec"}
+TypeOK == /\ mode \in {"run", "down", "rec"} /\ dpc \in {"none", "marked", "removed"}
           /\ fpc \in {"idle", "switched", "indexed", "committing", "renamed"}
           /\ writeReq \in Nat /\ inits \in Nat
 =============================================================================
